@@ -84,10 +84,25 @@ def theorem_spans(path):
     return spans
 
 
-def check_props(prop):
-    """Elaborate WireP/Props/<prop>.lean and audit the axioms of its theorems.
+EXTRA_MODULES = {p: ["Pipeline"] for p in ("C02", "C06", "C08", "C10", "C11")}
 
-    Returns dict(theorems=[...], failed=[(name, message)], axioms={name: [...]}, log=str)."""
+
+def check_props(prop):
+    """Elaborate WireP/Props/<prop>.lean (and the shared modules the property relies on) and audit
+    the axioms of every theorem in them."""
+    res = check_module(prop)
+    for extra in EXTRA_MODULES.get(prop, []):
+        r2 = check_module(extra)
+        res["theorems"] += r2["theorems"]
+        res["failed"] += r2["failed"]
+        res["axioms"].update(r2["axioms"])
+        res["examples"] += r2.get("examples", 0)
+        res["log"] += r2["log"]
+    return res
+
+
+def check_module(prop):
+    """Returns dict(theorems=[...], failed=[(name, message)], axioms={name: [...]}, log=str)."""
     path = "%s/WireP/Props/%s.lean" % (LEAN, prop)
     res = {"theorems": [], "failed": [], "axioms": {}, "log": "", "examples": 0}
     if not os.path.exists(path):
